@@ -13,9 +13,9 @@ import itertools, os, json, time
 from concurrent.futures import ThreadPoolExecutor
 from vlib import *
 
-KINDS = "J0 JC JR JF JCF JRF FC RFE RFN CT XFE XFN PX GT FO DY RP PR FCV RFW JI JG JGF JA JAW FOT".split()
-JS_KINDS = {"J0", "JC", "JR", "JF", "JCF", "JRF", "JI", "JG", "JGF", "JA", "JAW"}
-SWALLOW = {"JC", "JCF", "JA"}         # JA: an async function absorbs the exception into its promise
+KINDS = "J0 JC JR JF JCF JRF FC RFE RFN CT XFE XFN PX GT FO DY RP PR FCV RFW JI JG JGF JA JAW FOT JIT JY JYF FCS TG".split()
+JS_KINDS = {"J0", "JC", "JR", "JF", "JCF", "JRF", "JI", "JG", "JGF", "JA", "JAW", "JIT", "JY", "JYF"}
+SWALLOW = {"JC", "JCF", "JA", "FCS"}  # JA: an async function absorbs the exception into its promise; FCS: native frame drops the error
 RETHROW = {"JR", "JRF", "FCV"}        # new *Exception (new stack), same value
 REWRAP = {"RFW"}                      # value replaced by a GoError around fmt.Errorf("%w", err)
 SPLIT = {"PR", "JAW"}                 # the rest of the chain runs as a promise job
@@ -23,21 +23,27 @@ ENTRIES = ["RS", "CA", "EX"]
 VALS = "P1 P2 P3 P4 O1 R1 R2 R3 G1 G3 G4 G6 V1 V2 U1 U2".split()
 # U3 (toString interrupts the runtime) is exercised by corpus lines only: any frame that stringifies the error
 # (fmt.Errorf in RFW) would legitimately trigger that interrupt in the middle of the chain
-ERRS = "E1 C2 W3 J4 I5 WI6 JI7 S8 WS12".split()
+ERRS = "E1 C2 W3 J4 I5 WI6 JI7 S8 WS12 X14 WX15 A16 JJ17 JD18".split()
 PAYLOADS = (["jt:" + v for v in VALS] + ["js:" + k for k in "TRGS"] + ["ji", "jo"] +
             ["np:" + v for v in "P1 O1 R1 G1 V1 U1".split()] + ["npn", "nr:N0"] + ["nr:" + e for e in ERRS] +
-            ["nq:" + e for e in "E1 W3 WI6 I5 JI7".split()] + ["no", "nx"])
+            ["nq:" + e for e in "E1 W3 WI6 I5 JI7 JJ17".split()] + ["no", "nx"])
 # one representative per behaviour class, used where the chain space is enumerated exhaustively at depth 4
 REP_PAYLOADS = ["jt:P1", "jt:O1", "jt:R1", "jt:G3", "jt:V1", "js:T", "ji", "jo", "np:O1", "nr:J4", "nr:WI6", "nq:E1", "no"]
 
-QUICK_REP = ["jt:O1", "jt:G3", "ji", "nr:J4"]
-THOROUGH_REP = ["jt:O1", "ji"]
+QUICK_REP = ["jt:O1", "nr:WI6"]
+ENTRY_REP = ["jt:O1", "jt:G3", "jt:R1", "js:T", "ji", "np:O1", "nr:J4", "no"]
+THOROUGH_REP = ["jt:O1"]
 
 GOVAL = {"G1": "E1", "G3": "W3", "G4": "J4", "G6": "WI6", "V1": "E1"}       # JS values holding a Go error in .value
-IS_BITS = {"E1": "1000000000", "C2": "0100000000", "W3": "0110000000", "J4": "1101000000", "I5": "0000100000",
-           "WI6": "0000110000", "JI7": "1000101000", "S8": "0000000100", "WS12": "0000000101"}
-AS_OF = {"C2": "C2", "W3": "C2", "J4": "C2"}
-UNCATCHABLE_SPEC = {"I5", "WI6", "S8", "WS12", "JI7"}   # any wrapping form (%w, errors.Join) around an Interrupted/StackOverflow error
+# errors.Is against [E1 C2 W3 J4 I5 WI6 JI7 S8 E9 WS12 X14 WX15 A16]; X14 has a custom Is method answering true for E1,
+# A16 a custom As method yielding C2
+TARGETS = "E1 C2 W3 J4 I5 WI6 JI7 S8 E9 WS12 X14 WX15 A16 JJ17 JD18".split()
+REACH = {"E1": ["E1"], "C2": ["C2"], "W3": ["W3", "C2"], "J4": ["J4", "E1", "C2"], "I5": ["I5"], "WI6": ["WI6", "I5"],
+         "JI7": ["JI7", "I5", "E1"], "S8": ["S8"], "WS12": ["WS12", "S8"], "X14": ["X14", "E1"], "WX15": ["WX15", "X14", "E1"],
+         "A16": ["A16"], "JJ17": ["JJ17", "E1", "C2", "WI6", "I5"], "JD18": ["JD18", "W3", "C2"]}
+IS_BITS = {e: "".join("1" if t in r else "0" for t in TARGETS) for e, r in REACH.items()}
+AS_OF = {"C2": "C2", "W3": "C2", "J4": "C2", "A16": "C2", "JJ17": "C2", "JD18": "C2"}
+UNCATCHABLE_SPEC = {"I5", "WI6", "S8", "WS12", "JI7", "JJ17"}   # any wrapping form (%w, errors.Join) around an Interrupted/StackOverflow error
 UNCATCHABLE_CODE = UNCATCHABLE_SPEC                     # since fix cbcbe34 isUncatchableException uses errors.As
 
 
@@ -85,23 +91,28 @@ def spec_oracle(line, out):
     fins = [int(x[:-1]) for x in d["logl"] if x.endswith("f") and "=" not in x]
     rets = [int(x[:-1]) for x in d["logl"] if x.endswith("r") and "=" not in x]
     hostname = host[4:-1] if host.startswith(("exc(", "err(")) else host
+    dropped = "FCS" in chain       # a native frame that ignores the error it got may legitimately hide it from the host
 
     # error.Error() must return, whatever was thrown
     if d.get("es") == "panic":
         bad.append(("error-method:panics", "host=%s: calling Error() on it panics" % host))
 
     def unobserved(why):
-        # no catch block at all, and no finally block / iterator return() of the throwing segment (frames after the last job frame)
+        # no catch block at all, and no finally block / iterator return() on the path of the error: the frames after the
+        # last job frame and — for an error VALUE (uncatchable), which a native frame may drop — after the last FCS frame
+        lim = last_pr
+        if why == "uncatchable" and kind != "ji":   # a REAL interrupt cannot be dropped: the flag re-raises it
+            lim = max([lim] + [i for i, k in enumerate(chain) if k == "FCS"])
         if catches:
             bad.append((why + ":catch-observed", str(catches[:3])))
-        if any(i > last_pr for i in fins):
+        if any(i > lim for i in fins):
             bad.append((why + ":finally-observed", str(fins[:5])))
-        if any(i > last_pr for i in rets):
+        if any(i > lim for i in rets):
             bad.append((why + ":iterator-return-observed", str(rets[:5])))
 
     if kind in ("jt", "np"):
         v = arg
-        unwrap_possible = v in GOVAL and ("XFE" in chain or entry == "EX")
+        unwrap_possible = v in GOVAL and ("XFE" in chain or entry == "EX")   # (entry CO behaves like CA)
         if not unwrap_possible:
             if not rewrap:
                 # identity: every catch block / async rejection received v itself
@@ -126,16 +137,28 @@ def spec_oracle(line, out):
                 # a GoError keeps its Go error reachable whatever wrapper object arrives
                 if not bits_ge(d.get("is", ""), IS_BITS[e]) or (not rewrap and d.get("is") != IS_BITS[e]):
                     bad.append(("goerror:errors.Is", "host=%s is=%s want %s" % (host, d.get("is"), IS_BITS[e])))
-        # stack top = throw site, for script throws of non-Error values that nobody re-throws
-        if kind == "jt" and v[0] in "POVGU" and not unwrap_possible and not swallow and not has_pr and not rewrap \
-                and not any(k in RETHROW for k in chain):
-            if d.get("top") != "T":
-                bad.append(("stack:top-not-throw-site", "top=%s" % d.get("top")))
+        # stack top = the LAST RAISE SITE: the outermost frame that raises the value anew (catch block with `throw e`
+        # -> that statement; native panic(ex.Value()) -> a native position), else the thrower's site; an Error
+        # object made by running code always shows its creation site
+        if not unwrap_possible and not swallow and not has_pr and not rewrap:
+            if v[0] == "R":
+                want = "C"
+            else:
+                want = "T" if kind == "jt" else "o"
+                for i, k in enumerate(chain):
+                    if k in ("JR", "JRF"):
+                        want = "R%d" % i
+                        break
+                    if k == "FCV":
+                        want = "o"
+                        break
+            if d.get("top") != want:
+                bad.append(("stack:top-not-last-raise-site", "top=%s want %s" % (d.get("top"), want)))
     elif kind == "nr" and arg != "N0":
         e = arg
         if e in UNCATCHABLE_SPEC:
             unobserved("uncatchable")
-            if not (host.startswith("err(") and peel(hostname) == e):
+            if not dropped and not (host.startswith("err(") and peel(hostname) == e):
                 bad.append(("uncatchable:host-error", "host=%s want err(%s)" % (host, e)))
         elif not swallow and not has_pr:
             if not rewrap and not (host == "exc(ge(%s))" % e or host == "err(%s)" % e):
@@ -151,15 +174,15 @@ def spec_oracle(line, out):
     elif kind in ("ji", "jo"):
         unobserved("uncatchable")
         want = "intr(E9)" if kind == "ji" else "so"
-        if not (host.startswith("err(") and peel(hostname) == want):
+        if (kind == "ji" or not dropped) and not (host.startswith("err(") and peel(hostname) == want):
             bad.append(("uncatchable:host-error", "host=%s want err(%s)" % (host, want)))
-        if kind == "ji" and d.get("is") != "0000000010":
+        if kind == "ji" and d.get("is") != "".join("1" if t == "E9" else "0" for t in TARGETS):
             bad.append(("uncatchable:interrupt-value-unwrap", "is=%s" % d.get("is")))
     elif kind == "nq":
         e = arg
         if e in UNCATCHABLE_CODE:
             unobserved("uncatchable")
-            if not (host.startswith("err(") and peel(hostname) == e):
+            if not dropped and not (host.startswith("err(") and peel(hostname) == e):
                 bad.append(("uncatchable:host-error", "host=%s want err(%s)" % (host, e)))
         else:
             unobserved("foreign")
@@ -191,6 +214,9 @@ def gen_cases(ctx):
     rng = ctx.rng
     parts, plan = [], {}
 
+    def excluded(p, ch):
+        return False            # (no generator exclusion left: the sticky interrupt flag is modelled by Flow.pending)
+
     def exhaustive(depths, entries, payloads, tag):
         def it():
             for d in depths:
@@ -198,8 +224,10 @@ def gen_cases(ctx):
                     cs = ",".join(ch) or "-"
                     for e in entries:
                         for p in payloads:
-                            yield "%s %s %s" % (e, p, cs)
-        plan[tag] = sum(len(KINDS) ** d for d in depths) * len(entries) * len(payloads)
+                            if not excluded(p, ch):
+                                yield "%s %s %s" % (e, p, cs)
+        plan[tag] = sum(1 for d in depths for ch in itertools.product(KINDS, repeat=d) for p in payloads
+                        if not excluded(p, ch)) * len(entries)
         parts.append(it())
 
     def sampled(n, dmin, dmax, tag):
@@ -214,16 +242,23 @@ def gen_cases(ctx):
                     else:
                         pool = KINDS
                     ch.append(rng.choice(pool))
-                yield "%s %s %s" % (rng.choice(ENTRIES), rng.choice(PAYLOADS), ",".join(ch))
+                p = rng.choice(PAYLOADS)
+                if excluded(p, ch):
+                    p = "jo"
+                yield "%s %s %s" % (rng.choice(ENTRIES), p, ",".join(ch))
         plan[tag] = n
         parts.append(it())
 
     if ctx.tier == "quick":
-        exhaustive(range(0, 3), ENTRIES, PAYLOADS, "exhaustive depth<=2 x 3 entries x %d payloads" % len(PAYLOADS))
+        exhaustive(range(0, 3), ["RS"], PAYLOADS, "exhaustive depth<=2 x RS x %d payloads" % len(PAYLOADS))
+        exhaustive(range(0, 2), ["CA", "EX"], PAYLOADS, "exhaustive depth<=1 x CA,EX x %d payloads" % len(PAYLOADS))
+        exhaustive([2], ["CA", "EX"], ENTRY_REP, "exhaustive depth=2 x CA,EX x %d representative payloads" % len(ENTRY_REP))
         exhaustive([3], ["RS"], QUICK_REP, "exhaustive depth=3 x RS x %d representative payloads" % len(QUICK_REP))
-        sampled(15000, 4, 8, "sampled depth 4..8 (all entries, all payloads)")
+        exhaustive(range(0, 2), ["CO"], PAYLOADS, "exhaustive depth<=1 x AssertConstructor entry x %d payloads" % len(PAYLOADS))
+        sampled(10000, 4, 8, "sampled depth 4..8 (all entries, all payloads)")
     else:
         exhaustive(range(0, 3), ENTRIES, PAYLOADS, "exhaustive depth<=2 x 3 entries x %d payloads" % len(PAYLOADS))
+        exhaustive(range(0, 3), ["CO"], PAYLOADS, "exhaustive depth<=2 x AssertConstructor entry x %d payloads" % len(PAYLOADS))
         exhaustive([3], ["RS"], PAYLOADS, "exhaustive depth=3 x RS x %d payloads" % len(PAYLOADS))
         exhaustive([4], ["RS"], THOROUGH_REP, "exhaustive depth=4 x RS x %d representative payloads" % len(THOROUGH_REP))
         sampled(150000, 5, 8, "sampled depth 5..8 (all entries, all payloads)")
@@ -311,8 +346,8 @@ def main(ctx):
     ctx.log("regenerated facts:", regen_ok)
     lean_ok, errs = ctx.lake_build(["GojaModel.C14.Props", "GojaModel.C14.Tie", "model_c14"])
     if lean_ok:
-        ctx.audit("GojaModel.C14.Props", expect_min=20)
-        ctx.audit("GojaModel.C14.Tie", expect_min=40)
+        ctx.audit("GojaModel.C14.Props", expect_min=25)
+        ctx.audit("GojaModel.C14.Tie", expect_min=50)
         if ctx.tier == "thorough":
             ctx.leanchecker("GojaModel.C14.Props")
     ctx.log("lean build + audit done:", lean_ok)
